@@ -14,7 +14,7 @@ DRIVER = os.path.join(core.VERIF, "harness", "overlay", "neutrino", "zz_verif_ut
 DRIVER_FREE = os.path.join(core.VERIF, "harness", "overlay", "neutrino", "zz_verif_utxoscan_free_test.go")
 PKG = core.REPO
 
-READY = False
+READY = True
 PROPERTIES = ["C10"]
 
 MANIFEST = {
